@@ -637,6 +637,11 @@ class ExprMixin(object):
 
     def key_term(self, k, st):
         k = self.deref(k, st)
+        if isinstance(k, Text):
+            # a formatted text used as a dictionary key: named by an uninterpreted function of its token document (same template and arguments => same
+            # key; that different arguments give different keys is NOT assumed: a contract that needs it states it as a precondition)
+            self.reg.assume('a formatted text used as a dictionary key is the uninterpreted str_of_text of its token document (functional in template and arguments; injectivity only where a contract states it)')
+            return str_of_text(k.z)
         if isinstance(k, TupTerm): return k.z
         if isinstance(k, Tup):
             zs = [unwrap(self.deref(i, st)) for i in k.items]
@@ -747,6 +752,8 @@ class ExprMixin(object):
                 return [(Closure(fi.node, fi.module, 0, cls=r.name, qual=fi.qualname), st)]
             a = r.module.class_attr(r.name, name)
             if a is not None: return self.ev(a, st)
+        if isinstance(r, Dual) and name in ('items', 'keys', 'values', 'get'):
+            return [(BoundMethod(r.dict, name), st)]        # a value that is a callable or a dict, used as a dict (Finnis-Sinclair densities)
         if isinstance(r, Builtin) and name == '__name__': return [(PyStr(r.name), st)]
         if isinstance(r, Closure) and name == '__get__':
             return [(BoundMethod(recv, '__get__'), st)]
@@ -1083,6 +1090,8 @@ def chain_flat_fn(ety):
     return _flat_fns[key]
 
 _keys_fns = {}
+str_of_text = z3.Function('str_of_text', Doc, StrS)
+
 def keys_list_fn(kty):
     key = str(kty.sort())
     if key not in _keys_fns:
